@@ -1,5 +1,6 @@
 import SciVerif.Drive.Util
 import SciVerif.Model.C17
+import SciVerif.Lemmas.C17k
 open Lean SciVerif.Drive
 
 namespace SciVerif.C17.Drive
@@ -287,6 +288,136 @@ def runQuery (j : Json) : Except String Json := do
   let ns : List Node := names.map blankNode
   pure (jarr (fun (n : Node) => jS n.name) (query ns (parseQuery q)))
 
+/-! ### tie of the refinement theorems' own definitions to the programs that are run
+
+`C17_refinement_nested_imports_partial` speaks about the line record `impAt i pre source q` and the
+destination `impDest parents i pre`; `C17_refinement_checked_partial` about the check `fragRunB`.
+For every import line of a main program the driver evaluates these definitions where the model
+stands when it reaches the line, and compares them with the line record the harness built from the
+program text and with the destination of the specification statement (which is compared with the
+real code by the environment comparison). -/
+
+/-- the import lines of a program with the hierarchy stack the model holds when it reaches them -/
+def impSites (tbl : UnitTable) : CEnv → List Item → List (List (Nat × Str) × Node)
+  | _, [] => []
+  | c, it :: rest =>
+    let here := match it with
+      | .node n => if n.kw = .imp then [(c.env.parents, n)] else []
+      | _ => []
+    here ++ (match stepC tbl c it with
+      | .ok c' => impSites tbl c' rest
+      | .error _ => [])
+
+def tieOne (x : (List (Nat × Str) × Node) × (List Str × Option Str × SQuery)) : Json :=
+  let ps := x.1.1
+  let n := x.1.2
+  let dest := x.2.1
+  let source := x.2.2.1
+  let q := x.2.2.2
+  let pre : List Str := match (splitDotBrace n.name).dropLast with
+    | [] => []
+    | p :: _ => splitDot p
+  let a := impAt n.indent pre source q
+  Json.mkObj [
+    ("line", Json.bool (decide (a.name = n.name) && decide (a.ref = n.ref) && decide (a.indent = n.indent))),
+    ("dest", Json.bool (decide (impDest ps n.indent pre = dest))),
+    ("indent", jnat n.indent)]
+
+/-! #### the nested check `runNB` on the program that is run
+
+The main program (line records + specification statements, as the harness sends them) is read as
+a list of `NLine`s; it counts as covered by `C17_refinement_nested_checked_partial` when every
+line is expressible, the line records `NLine.item` produces ARE the records that are run
+(field by field), and `runNB` accepts. -/
+
+def slEqB : Sl → Sl → Bool
+  | .idx a, .idx b => a == b
+  | .rng a b, .rng c d => a == c && b == d
+  | _, _ => false
+
+def slsEqB : List Sl → List Sl → Bool
+  | [], [] => true
+  | a :: t, b :: u => slEqB a b && slsEqB t u
+  | _, _ => false
+
+def nodeEqB (a b : Node) : Bool :=
+  decide (a.name = b.name) && a.indent == b.indent && decide (a.kw = b.kw) && decide (a.dims = b.dims) &&
+  (optJ valJson a.raw == optJ valJson b.raw) && decide (a.ref = b.ref) && slsEqB a.slice b.slice &&
+  decide (a.unitsRaw = b.unitsRaw) && (optJ valJson a.value == optJ valJson b.value) &&
+  a.defined == b.defined && a.constant == b.constant && decide (a.condition = b.condition) &&
+  decide (a.format = b.format) && decide (a.tags = b.tags) && (a.options.isEmpty && b.options.isEmpty) &&
+  decide (a.description = b.description) && a.imported == b.imported
+
+def itemsMatch : List Item → List Item → Bool
+  | [], [] => true
+  | .node a :: t, .node b :: u => nodeEqB a b && itemsMatch t u
+  | .prop _ :: t, .prop _ :: u => itemsMatch t u      -- the same `PropLine` by construction
+  | _, _ => false
+
+def stmtPath? : SStmt → Option (List Str)
+  | .constant p => some p
+  | .condition p _ => some p
+  | .format p _ => some p
+  | .tags p _ => some p
+  | .option p _ _ => some p
+  | .description p _ => some p
+  | _ => none
+
+def toNLines : List Item → List SStmt → Option (List NLine)
+  | [], [] => some []
+  | [], _ :: _ => none
+  | .node n :: its, ss =>
+    if n.kw = .group then (toNLines its ss).map (fun r => .base (.group n.indent n.name) :: r)
+    else match ss with
+      | [] => none
+      | s :: ss' =>
+        if n.kw = .imp then
+          match s with
+          | .imp dest source q =>
+            let pre : List Str := match (splitDotBrace n.name).dropLast with
+              | [] => []
+              | p :: _ => splitDot p
+            (toNLines its ss').map (fun r => .imp n.indent pre dest source q :: r)
+          | _ => none
+        else (toNLines its ss').map (fun r => .base (.stmt n.indent n.name s) :: r)
+  | .prop p :: its, s :: ss' =>
+    match stmtPath? s with
+    | some path => (toNLines its ss').map (fun r => .base (.prop path p) :: r)
+    | none => none
+  | _, _ => none
+
+def nestedCover (tbl : UnitTable) (benv : Env) (items : List Item) (stmts : List SStmt) : String :=
+  match toNLines items stmts with
+  | none => "inexpressible"
+  | some ls =>
+    match ls.mapM NLine.item with
+    | none => "inexpressible"
+    | some its =>
+      if !itemsMatch its items then "records-differ"
+      else if runNB tbl benv ls then "accepts" else "refuses"
+
+def runTie (tbl : UnitTable) (mj sj : Json) : Except String Json := do
+  let srcs ← getList (fieldD mj "sources" |> fun x => if x == Json.null then Json.arr #[] else x)
+  match parseSources tbl srcs [] [] with
+  | .error _ => pure Json.null
+  | .ok (sources, srcUnits) =>
+    let env0 : Env := { Env.empty with sources := sources, srcUnits := srcUnits }
+    let baseJ := fieldD mj "base"
+    let mainItems ← (← getList (← field mj "main")).mapM getItem
+    let mainStmts ← (← getList (← field sj "main")).mapM getStmt
+    let baseItems ← if baseJ == Json.null then pure [] else (← getList baseJ).mapM getItem
+    match (if baseJ == Json.null then Except.ok env0 else parseC tbl env0 baseItems) with
+    | .error _ => pure Json.null
+    | .ok benv =>
+      let sites := impSites tbl ⟨benv, none⟩ mainItems
+      let imps := mainStmts.filterMap (fun s => match s with
+        | .imp d so q => some (d, so, q)
+        | _ => none)
+      let frag := fragRunB tbl (absEnv benv) mainStmts
+      pure (Json.mkObj [("imports", Json.arr ((sites.zip imps).map tieOne).toArray),
+                        ("frag", Json.bool frag),
+                        ("nested", jstr (nestedCover tbl benv mainItems mainStmts))])
+
 def handle (j : Json) : Except String Json := do
   let k ← (← field j "k").getStr?
   match k with
@@ -294,7 +425,8 @@ def handle (j : Json) : Except String Json := do
     let tbl ← getTbl (← field j "tbl")
     let m ← runModel tbl (← field j "model")
     let s ← runSpec tbl (← field j "spec")
-    pure (Json.mkObj [("model", m), ("spec", s)])
+    let t ← runTie tbl (← field j "model") (← field j "spec")
+    pure (Json.mkObj [("model", m), ("spec", s), ("tie", t)])
   | "slice" => runSlice j
   | "query" => runQuery j
   | _ => throw s!"C17: unknown kind {k}"
